@@ -35,6 +35,33 @@ func SplitAdd(stores context2.Stores, repo, diamondID, splitID, dir string, extr
 	return s.SplitDescriptor.SplitID, nil
 }
 
+// SplitAddRetried is SplitAdd by a library caller that keeps its Split object: arm() is called before the first
+// Upload (it is expected to make a store call of that upload fail), disarm() after it, and when the first Upload
+// failed Upload is called again on the same object. Returns whether a retry took place.
+func SplitAddRetried(stores context2.Stores, repo, diamondID, splitID, dir string, arm, disarm func(), extra ...core.SplitOption) (bool, error) {
+	descOpts := []model.SplitDescriptorOption{model.SplitContributor(model.Contributor{Name: "verif", Email: "verif@example.com"})}
+	if splitID != "" {
+		descOpts = append(descOpts, model.SplitID(splitID))
+	}
+	opts := []core.SplitOption{
+		core.SplitDescriptor(model.NewSplitDescriptor(descOpts...)),
+		core.SplitConsumableStore(Local(dir)),
+		core.SplitLogger(Nop),
+	}
+	opts = append(opts, extra...)
+	s := core.NewSplit(repo, diamondID, stores, opts...)
+	if _, err := core.CreateSplit(repo, diamondID, stores, core.SplitDescriptor(&s.SplitDescriptor), core.SplitLogger(Nop)); err != nil {
+		return false, err
+	}
+	arm()
+	err := s.Upload()
+	disarm()
+	if err == nil {
+		return false, nil
+	}
+	return true, s.Upload()
+}
+
 // Commit follows `datamon diamond commit`; returns the diamond object (BundleID, descriptor)
 func Commit(stores context2.Stores, repo, diamondID string, mode model.ConflictMode, extra ...core.DiamondOption) (*core.Diamond, error) {
 	return CommitWith(stores, repo, diamondID, mode, nil, extra...)
